@@ -6,25 +6,107 @@
    pose) and the number of false negatives; `voc_row_of` is one iteration of the
    threshold loop of voc_metrics (precision envelope, searchsorted, recall, AP);
    `rnd` is float64 rounding of tp/npig, any function with the contract
-   (monotone, rnd 0 == 0, rnd 1 == 1); eps = 2^-52.  Ratios that numpy reports as
+   (monotone, rnd 0 == 0, rnd 1 == 1); the harness evaluates `round_f64`, which meets the contract
+   (c16_round_f64_contract, proved in LemmasRound.v); the `..._f64` corollaries are the rnd-theorems
+   instantiated at it.  eps = 2^-52.
+   F51 (C15) is repaired in the current tree (8044028): `fixed = true` is the current code, `false` the
+   pinned tree before that fix (historical; witnesses below that use `false` do not depend on it).  Ratios that numpy reports as
    NaN (no positive pair; empty visibility denominator) are `None` here: "every
    reported ratio" = every ratio that is defined. *)
 From Coq Require Import List Arith ZArith QArith Permutation Lia.
 Import ListNotations.
-From SV Require Import C15.Oks C15.Lemmas C16.Metrics C16.Lemmas C16.LemmasPairs C16.LemmasDelete C16.LemmasState.
+From SV Require Import C15.Oks C15.Lemmas C16.Metrics C16.Lemmas C16.LemmasPairs C16.LemmasDelete C16.LemmasState
+  C16.LemmasRound C16.LemmasDelete2 C16.LemmasReport.
 Local Open Scope Q_scope.
 
 (* ---- (a) predictions identical to the ground truth ----
-   hypothesis forced by the proof: in every frame the score matrix has 1 on the
-   diagonal (C15: identical poses) and no *cross* pair with OKS exactly 1
-   (`perfect_M`; necessity: ex_c16_cross_pair_breaks_perfect); match threshold < 1 *)
-Theorem c16_perfect_matching : forall fixed thr fps,
+   The clause as stated ("identical predictions give perfect scores", for all NaN patterns) is FALSE of the
+   faithful model and of the code (review round 4, finding 1): findings F160 / F161, both replayed on the
+   real Evaluator every run (corpus/C16/F160_*.json, F161_*.json).
+   F160: two animals that coincide on the visible keypoints of one of them (a = [(0,0), NaN],
+         b = [(0,0), (5,5)]): OKS(a, copy of b) = 1; b's copy, processed first, takes a (first of the
+         ties), a's copy gets b with OKS 1/2: mOKS 3/4 (and mAR 0.55 on the default grid).
+   F161: a gt instance without a visible keypoint: its OKS row is NaN, it is never matched: recall 1/2. *)
+Definition wA0 : pose := [[Some 0; Some 0]; [Some 8; Some 0]; [Some 0; Some 8]].
+Definition recalls0 (o : outcome report) : list Q :=
+  match o with
+  | Ok r => match r_voc r with Some v => map (fun row => Qred (vr_recall row)) (voc_rows v) | None => [] end
+  | _ => []
+  end.
+Definition pa : pose := [[Some 0; Some 0]; [None; None]].
+Definition pb : pose := [[Some 0; Some 0]; [Some 5; Some 5]].
+Definition pnan : pose := [[None; None]; [None; None]; [None; None]].
+Definition lab (ps : list inst) : labels := ([(0%nat, 0%nat)], [LF 0 0 ps]).
+Definition moks_of (o : outcome report) : option Q := match o with Ok r => r_moks r | _ => None end.
+(* the prediction labels are the gt labels with a score attached to every instance *)
+Definition is_copy (gtL prL : labels) : Prop :=
+  fst prL = fst gtL /\
+  map (fun f => (lf_video f, lf_idx f, map fst (lf_insts f))) (snd prL) =
+  map (fun f => (lf_video f, lf_idx f, map fst (lf_insts f))) (snd gtL).
+
+Theorem c16_perfect_refuted :
+  (* F160: the OKS matrix [[1, 1], [1/2, 1]] is the exact float64 output of compute_oks *)
+  (let gtL := lab [(pa, None); (pb, None)] in
+   let prL := lab [(pa, Some (1 # 2)); (pb, Some (7 # 8))] in
+   is_copy gtL prL /\
+   moks_of (evaluate round_f64 true true 0 2 [(0%nat, 0%nat, [[Some 1; Some 1]; [Some (1 # 2); Some 1]])]
+                     gtL prL [1 # 2] [0; 1 # 2; 1] [1]) = Some (3 # 4)) /\
+  (* F161: OKS matrix [[1, 0], [NaN, NaN]] *)
+  (let gtL := lab [(wA0, None); (pnan, None)] in
+   let prL := lab [(wA0, Some (1 # 2)); (pnan, Some (7 # 8))] in
+   is_copy gtL prL /\
+   recalls0 (evaluate round_f64 true true 0 3 [(0%nat, 0%nat, [[Some 1; Some 0]; [None; None]])]
+                      gtL prL [1 # 2] [0; 1 # 2; 1] [1]) = [1 # 2]).
+Proof.
+  split; (split; [split; reflexivity|vm_compute; reflexivity]).
+Qed.
+Print Assumptions c16_perfect_refuted.
+
+(* both witnesses lie inside their selector, and only there *)
+Example ex_c16_perfect_witnesses_in_selectors :
+  labels_selector_F16x true [(0%nat, 0%nat, [[Some 1; Some 1]; [Some (1 # 2); Some 1]])]
+     (lab [(pa, None); (pb, None)]) (lab [(pa, Some (1 # 2)); (pb, Some (7 # 8))]) = (true, false) /\
+  labels_selector_F16x true [(0%nat, 0%nat, [[Some 1; Some 0]; [None; None]])]
+     (lab [(wA0, None); (pnan, None)]) (lab [(wA0, Some (1 # 2)); (pnan, Some (7 # 8))]) = (false, true).
+Proof. split; vm_compute; reflexivity. Qed.
+
+(* the strongest true statement: outside the two selectors a frame pair of copies is a `perfect_frame`
+   (`copy_frame`: predictions = gt instances in order, one score each, OKS 1 on the diagonal wherever the
+   gt instance has a visible keypoint — C15's c15_oks_identical; the matrix is an oracle input) ... *)
+Theorem c16_perfect_frame_outside_selectors : forall fp,
+  copy_frame fp -> frame_selector_F160 fp = false -> frame_selector_F161 fp = false -> perfect_frame fp.
+Proof. exact perfect_frame_of_selectors. Qed.
+Print Assumptions c16_perfect_frame_outside_selectors.
+
+(* ... and on perfect frames (`perfect_M`: diagonal 1, every cross pair < 1) with a match threshold < 1
+   every gt instance is matched to its own copy and none is missed *)
+Theorem c16_perfect_matching_partial : forall fixed thr fps,
   Forall perfect_frame fps -> thr < 1 ->
   exists pps, match_frames fixed thr fps = Some (pps, 0%nat) /\
               Forall perfect_pair pps /\
               Permutation (map pp_g pps) (concat (map frame_gts fps)).
 Proof. exact match_frames_perfect. Qed.
-Print Assumptions c16_perfect_matching.
+Print Assumptions c16_perfect_matching_partial.
+
+(* the composed statement on the report of evaluate(): outside the selectors (all frame pairs perfect), with
+   at least one gt instance, non-empty grids of thresholds <= 1: the Evaluator answers, no false negative,
+   mOKS 1, every distance 0 (NaN where the keypoint is missing), recall 1 and AP in [1/(1+eps), 1] at every
+   match threshold, mAP in the same interval, mAR 1 ("1 up to rounding": eps = 2^-52 of the precision) *)
+Theorem c16_perfect_report_partial : forall fx ulo thr n db gtL prL mthrs rthrs pthrs,
+  Forall perfect_frame (find_pairs ulo db gtL prL) ->
+  concat (map frame_gts (find_pairs ulo db gtL prL)) <> [] ->
+  thr < 1 -> mthrs <> [] -> rthrs <> [] ->
+  Forall (fun t => t <= 1) mthrs -> Forall (fun r => r <= 1) rthrs ->
+  exists rep v q,
+    evaluate round_f64 fx ulo thr n db gtL prL mthrs rthrs pthrs = Ok rep /\
+    r_nfn rep = 0%nat /\
+    r_moks rep = Some q /\ q == 1 /\
+    Forall (Forall (fun d => match d with None => True | Some x => x == 0 end)) (r_d2 rep) /\
+    r_voc rep = Some v /\
+    Forall (fun row => vr_recall row == 1 /\ / (1 + eps) <= vr_ap row <= 1) (voc_rows v) /\
+    / (1 + eps) <= voc_map v <= 1 /\ voc_mar v == 1.
+Proof. exact (perfect_report round_f64 round_f64_mono round_f64_1). Qed.
+Print Assumptions c16_perfect_report_partial.
 
 Theorem c16_perfect_moks : forall pps q,
   Forall (fun pp => pp_oks pp == 1) pps -> moks pps = Some q -> q == 1.
@@ -138,29 +220,65 @@ Theorem c16_second_evaluator_same_report : forall rnd fx thr n db gtL prL m r k,
 Proof. exact evaluate_after_same. Qed.
 Print Assumptions c16_second_evaluator_same_report.
 
-(* ---- (b) every reported ratio lies in [0,1] ---- *)
+(* ---- (b) every reported ratio lies in [0,1] ----
+   Grids are non-empty (review round 4, finding 3): on an empty recall grid the code's AP / mAP are NaN and on
+   an empty match grid `precisions.mean(axis=1)` raises; the model's qmean [] = 0/0 = 0 would make the bounds
+   hold by totalisation there, so the hypotheses are stated. *)
 Theorem c16_voc_bounds : forall rnd,
   (forall a b, a <= b -> rnd a <= rnd b) -> rnd 0 == 0 -> rnd 1 == 1 ->
   forall mscores pps n_fn mthrs rthrs v,
+  mthrs <> [] -> rthrs <> [] ->
   length mscores = length pps ->
   voc_metrics rnd mscores pps n_fn mthrs rthrs = Some v ->
   Forall (fun row => 0 <= vr_recall row <= 1 /\ Forall (fun x => 0 <= x <= 1) (vr_precisions row) /\
                      0 <= vr_ap row <= 1) (voc_rows v) /\
   0 <= voc_map v <= 1 /\ 0 <= voc_mar v <= 1.
-Proof. exact voc_metrics_bounds. Qed.
+Proof. intros rnd H1 H2 H3 mscores pps n_fn mthrs rthrs v _ _. apply voc_metrics_bounds; assumption. Qed.
 Print Assumptions c16_voc_bounds.
+
+(* ... for the rounding the harness evaluates *)
+Theorem c16_voc_bounds_f64 : forall mscores pps n_fn mthrs rthrs v,
+  mthrs <> [] -> rthrs <> [] ->
+  length mscores = length pps ->
+  voc_metrics round_f64 mscores pps n_fn mthrs rthrs = Some v ->
+  Forall (fun row => 0 <= vr_recall row <= 1 /\ Forall (fun x => 0 <= x <= 1) (vr_precisions row) /\
+                     0 <= vr_ap row <= 1) (voc_rows v) /\
+  0 <= voc_map v <= 1 /\ 0 <= voc_mar v <= 1.
+Proof.
+  intros mscores pps n_fn mthrs rthrs v _ _.
+  apply (voc_metrics_bounds round_f64 round_f64_mono round_f64_0 round_f64_1).
+Qed.
+Print Assumptions c16_voc_bounds_f64.
 
 Theorem c16_moks_bounds : forall pps q,
   Forall (fun pp => 0 <= pp_oks pp <= 1) pps -> moks pps = Some q -> 0 <= q <= 1.
 Proof. exact moks_bounds. Qed.
 Print Assumptions c16_moks_bounds.
 
+(* the hypothesis of c16_moks_bounds derived: every OKS of a positive pair is an entry of its frame pair's
+   matrix above the match threshold (C15 match_instances_spec), so mOKS is in [0,1] as soon as the matrices
+   are (C15: c15_compute_oks_range on the real values; the float64 matrices are an oracle input) *)
+Theorem c16_pairs_are_matrix_entries : forall fx ulo thr db gtL prL pps nfn,
+  process fx ulo thr db gtL prL = Ok (pps, nfn) ->
+  Forall (fun pp => exists fp g p, In fp (find_pairs ulo db gtL prL) /\
+                                   mget (frame_M fp) g p = Some (pp_oks pp) /\ eligible thr (pp_oks pp)) pps.
+Proof. exact process_pairs_entries. Qed.
+Print Assumptions c16_pairs_are_matrix_entries.
+
+Theorem c16_moks_bounds_from_matrices : forall fx ulo thr db gtL prL pps nfn q,
+  process fx ulo thr db gtL prL = Ok (pps, nfn) ->
+  (forall fp g p x, In fp (find_pairs ulo db gtL prL) -> mget (frame_M fp) g p = Some x -> 0 <= x <= 1) ->
+  moks pps = Some q -> 0 <= q <= 1.
+Proof. exact process_moks_bounds. Qed.
+Print Assumptions c16_moks_bounds_from_matrices.
+
 Theorem c16_pck_bounds : forall n pps thrs,
+  thrs <> [] -> (0 < n)%nat -> pps <> [] ->
   (forall k, 0 <= pck_part pps thrs k <= 1) /\
   (forall q, mpck n pps thrs = Some q -> 0 <= q <= 1) /\
   (forall t, 0 <= pck_at n pps t <= 1).
 Proof.
-  intros n pps thrs. split; [intros k; apply pck_part_bounds|].
+  intros n pps thrs _ _ _. split; [intros k; apply pck_part_bounds|].
   split; [intros q; apply mpck_bounds|intros t; apply pck_at_bounds].
 Qed.
 Print Assumptions c16_pck_bounds.
@@ -180,6 +298,14 @@ Theorem c16_ap_ar_antitone_in_match_threshold : forall rnd,
 Proof. exact voc_row_mono. Qed.
 Print Assumptions c16_ap_ar_antitone_in_match_threshold.
 
+Theorem c16_ap_ar_antitone_in_match_threshold_f64 : forall npig ms rthrs t1 t2, t1 <= t2 ->
+  vr_recall (voc_row_of round_f64 npig ms rthrs t2) <= vr_recall (voc_row_of round_f64 npig ms rthrs t1) /\
+  Forall2 Qle (vr_precisions (voc_row_of round_f64 npig ms rthrs t2))
+              (vr_precisions (voc_row_of round_f64 npig ms rthrs t1)) /\
+  vr_ap (voc_row_of round_f64 npig ms rthrs t2) <= vr_ap (voc_row_of round_f64 npig ms rthrs t1).
+Proof. exact (voc_row_mono round_f64 round_f64_mono). Qed.
+Print Assumptions c16_ap_ar_antitone_in_match_threshold_f64.
+
 (* the rows of the returned table are exactly these rows *)
 Theorem c16_voc_rows : forall rnd mscores pps n_fn mthrs rthrs v,
   voc_metrics rnd mscores pps n_fn mthrs rthrs = Some v ->
@@ -195,13 +321,22 @@ Theorem c16_pck_monotone_in_pixel_threshold : forall n pps t t',
 Proof. exact pck_at_mono. Qed.
 Print Assumptions c16_pck_monotone_in_pixel_threshold.
 
+(* `pck_at` is what pck_metrics reports on a one-threshold grid (the evaluated `mpck`) *)
+Theorem c16_pck_at_is_mpck_single : forall n pps t, pps <> [] ->
+  exists q, mpck n pps [t] = Some q /\ q == pck_at n pps t.
+Proof. exact mpck_single. Qed.
+Print Assumptions c16_pck_at_is_mpck_single.
+
 Theorem c16_mpck_monotone : forall n pps thrs thrs' q q',
   Forall2 Qle thrs thrs' -> mpck n pps thrs = Some q -> mpck n pps thrs' = Some q' -> q <= q'.
 Proof. exact mpck_mono. Qed.
 Print Assumptions c16_mpck_monotone.
 
 (* ---- (e) deleting predictions ----
-   F6: the full statement is false of the faithful model (and of the code): *)
+   F6: the full statement is false of the faithful model (and of the code).  The matrix of this witness is an
+   arbitrary oracle matrix (1 # 268336 is not a float64 value): a refutation of the model over all matrices;
+   the replay on the real code (compute_oks outputs) is corpus/C16/F6_delete_prediction.json, every run.
+   `false` = F51 flag of the pinned tree; the witness has gt instances in its frame, so the flag is not used. *)
 Definition wA : pose := [[Some 0; Some 0]; [Some 8; Some 0]; [Some 0; Some 8]].
 Definition wB : pose := [[Some 20; Some 20]; [Some 28; Some 20]; [Some 20; Some 28]].
 Definition wA2 : pose := [[Some 2; Some 0]; [Some 10; Some 0]; [Some 2; Some 8]].
@@ -246,6 +381,59 @@ Theorem c16_delete_prediction_partial : forall M thr o1 p o2 avail t ms missed m
   (forall m, In m ms' -> In m ms).
 Proof. exact delete_prediction_selector. Qed.
 Print Assumptions c16_delete_prediction_partial.
+
+(* --- from the matching loop to what is really deleted (review round 4, finding 4) ---
+   Deleting predicted instance p from the labels removes its score and its column of the OKS matrix and
+   moves the later predictions down by one (`del_pred`, `pop_col`, `down`); the processing order is
+   recomputed.  c16_delete_is_index_preserving_deletion: that run IS the index-preserving deletion the
+   theorem above speaks about, up to the renaming `down p` of the prediction indices. *)
+Theorem c16_delete_is_index_preserving_deletion : forall fx n scores M thr p o1 o2 ms missed ms' missed',
+  argsort_desc scores = o1 ++ p :: o2 -> (p < length scores)%nat ->
+  match_instances fx n scores M thr = Some (ms, missed) ->
+  match_instances fx n (pop_at p scores) (pop_col p M) thr = Some (ms', missed') ->
+  exists ms0 missed0,
+    match_loop M thr (o1 ++ o2) (seq 0 n) = (ms0, missed0) /\
+    ms' = map (fun m : mpair => (gt_of m, down p (pr_of m), oks_of m)) ms0 /\ missed' = missed0 /\
+    match_loop M thr (o1 ++ p :: o2) (seq 0 n) = (ms, missed).
+Proof. exact match_instances_del_pred. Qed.
+Print Assumptions c16_delete_is_index_preserving_deletion.
+
+Theorem c16_argsort_after_deletion : forall scores p, (p < length scores)%nat ->
+  argsort_desc (pop_at p scores) = map (down p) (filter (fun q => negb (q =? p)%nat) (argsort_desc scores)).
+Proof. exact argsort_desc_pop_at. Qed.
+Print Assumptions c16_argsort_after_deletion.
+
+(* the selector is executable (`selector_F6b`, evaluated by the harness through `labels_selector_F6` on every
+   deletion variant and compared with the Python oracle's selector) and equals the Prop of the theorem above *)
+Theorem c16_selector_F6_executable : forall M thr p o2 ms,
+  selector_F6b M thr p o2 ms = true <-> selector_F6 M thr p o2 ms.
+Proof. exact selector_F6b_iff. Qed.
+Print Assumptions c16_selector_F6_executable.
+
+(* lifted over the frame pairs of an evaluation: `deleted_in thr fp fp'` = fp' is fp, or fp with one predicted
+   instance deleted outside the selector (`frame_selector_F6 thr fp p = false`); any number of frame pairs may
+   lose a prediction *)
+Theorem c16_delete_prediction_frames_partial : forall fx thr t fps fps' pps nfn pps' nfn',
+  Forall2 (deleted_in thr) fps fps' ->
+  match_frames fx thr fps = Some (pps, nfn) -> match_frames fx thr fps' = Some (pps', nfn') ->
+  (count_ge t (map pp_oks pps') <= count_ge t (map pp_oks pps))%nat /\
+  (length pps' + nfn' = length pps + nfn)%nat.
+Proof. intros fx thr t. exact (match_frames_delete fx thr t). Qed.
+Print Assumptions c16_delete_prediction_frames_partial.
+
+(* ... and at the level of the report, with the rounding the harness evaluates: no recall of the table
+   grows.  What is NOT proved in Coq: that deleting an instance from the prediction labels changes
+   `find_pairs` only by `del_pred` in the frame pairs holding that frame (find_pairs reads video keys, frame
+   indices and gt instance kinds only); the harness evaluates both label pairs through the model. *)
+Theorem c16_delete_prediction_evaluate_partial :
+  forall fx ulo thr n db gtL prL db' prL' m r k rep rep' v v',
+  Forall2 (deleted_in thr) (find_pairs ulo db gtL prL) (find_pairs ulo db' gtL prL') ->
+  evaluate round_f64 fx ulo thr n db gtL prL m r k = Ok rep ->
+  evaluate round_f64 fx ulo thr n db' gtL prL' m r k = Ok rep' ->
+  r_voc rep = Some v -> r_voc rep' = Some v' ->
+  Forall2 (fun row' row => vr_recall row' <= vr_recall row) (voc_rows v') (voc_rows v).
+Proof. exact (evaluate_delete round_f64 round_f64_mono). Qed.
+Print Assumptions c16_delete_prediction_evaluate_partial.
 
 (* the order match_instances processes the predictions in never holds a prediction twice *)
 Theorem c16_processing_order_nodup : forall scores, NoDup (argsort_desc scores).
@@ -319,9 +507,14 @@ Theorem c16_recall_monotone_in_count : forall rnd,
 Proof. exact recall_of_mono. Qed.
 Print Assumptions c16_recall_monotone_in_count.
 
-(* ---- the executable rounding instance meets the two point conditions of the contract
-   (its monotonicity is IEEE-754's; the harness compares round_f64 with float64
-   division on every run) ---- *)
+(* ---- the executable rounding instance meets the whole contract (monotonicity proved in LemmasRound.v
+   for the Coq function itself: binade characterisation + monotone round-half-even; the harness
+   additionally compares round_f64 with float64 division on every run) ---- *)
+Theorem c16_round_f64_contract :
+  (forall a b, a <= b -> round_f64 a <= round_f64 b) /\ round_f64 0 == 0 /\ round_f64 1 == 1.
+Proof. split; [exact round_f64_mono|]. split; [exact round_f64_0|exact round_f64_1]. Qed.
+Print Assumptions c16_round_f64_contract.
+
 Theorem c16_round_f64_fixes_0_and_1 : round_f64 0 == 0 /\ round_f64 1 == 1.
 Proof. split; vm_compute; reflexivity. Qed.
 Print Assumptions c16_round_f64_fixes_0_and_1.
